@@ -194,6 +194,49 @@ def mutate(wire, m):
         m2 = dict(m)
         m2.pop('refix')
         return refix_params_digest(mutate(wire, m2))
+    if m['t'] == 'name2ap':
+        # the last name component (in front of the digest) is of type 36 = the type number of ApplicationParameters: moved
+        # out of the Name it reads as a (second) ApplicationParameters element - the covered bytes stay the same
+        try:
+            tree = tlv_tree(wire)
+        except tlvref.TlvError:
+            return wire
+        if len(tree) != 1 or tree[0]['t'] != 0x05 or not tree[0]['kids'] or tree[0]['kids'][0]['t'] != 0x07:
+            return wire
+        kids = tree[0]['kids']
+        name = kids[0]
+        if name['kids'] is None:
+            return wire
+        plain = [k for k in name['kids'] if k['t'] != 0x02]
+        if not plain or plain[-1]['t'] != 0x24 or (name['kids'][-1]['t'] != 0x02 and name['kids'][-1] is not plain[-1]):
+            return wire
+        comp = plain[-1]
+        name['kids'].remove(comp)
+        ap_idx = next((i for i, k in enumerate(kids) if k['t'] == 0x24), None)
+        if ap_idx is None:
+            return wire
+        kids.insert(ap_idx, {'t': 0x24, 'v': comp['v'], 'kids': None})
+        return tree_bytes(tree)
+    if m['t'] == 'digestlen':
+        # the (unsigned) digest component changes its length and the neighbourhood makes up for it: k bytes cut from the digest
+        # value, a new k-byte component right behind it (total Name length unchanged)
+        try:
+            tree = tlv_tree(wire)
+        except tlvref.TlvError:
+            return wire
+        if len(tree) != 1 or tree[0]['t'] != 0x05 or not tree[0]['kids'] or tree[0]['kids'][0]['t'] != 0x07:
+            return wire
+        name = tree[0]['kids'][0]
+        if name['kids'] is None:
+            return wire
+        pos = next((i for i, k in enumerate(name['kids']) if k['t'] == 0x02 and len(k['v']) == 32), None)
+        if pos is None:
+            return wire
+        k = max(2, min(8, m.get('k', 4)))
+        dig = name['kids'][pos]
+        dig['v'] = dig['v'][:32 - k]
+        name['kids'].insert(pos + 1, {'t': 0x08, 'v': bytes([0x41]) * (k - 2), 'kids': None})
+        return tree_bytes(tree)
     if m['t'] == 'ap2name':
         # the ApplicationParameters element is moved into the Name (as its last component, in front of the digest): the
         # bytes the signature covers stay exactly the same, the name and the parameters of the Interest do not
@@ -355,9 +398,42 @@ class SigWorld(World):
             self.log('link', dir=direction, fid=fid, orig=wire, sent=out)
         else:
             self.log('link', dir=direction, fid=fid, orig=wire, sent=None)
+        if flow is not None and flow.get('_recv') is out and out is not None:
+            # the verifier clause on its own: the same verifier, asked directly (no application, no digest check in front)
+            t_ = self.loop.create_task(self._direct_verify(flow, out))
+            self.direct_tasks = getattr(self, 'direct_tasks', set())
+            self.direct_tasks.add(t_)
         if flow is not None and flow.get('dup'):
             self.after(flow.get('delay_us', 10) + 5, dst.deliver, out)
         self.after((flow or {}).get('delay_us', 10), dst.deliver, out)
+
+    async def _direct_verify(self, flow, wire):
+        kind = flow['signer']
+        if kind in ('none', 'null') or flow.get('verifier', 'match') != 'match':
+            return
+        kidx = flow['key']
+        if (kind, kidx) not in self.checkers:
+            self.checkers[(kind, kidx)] = make_checker(kind, kidx)
+        checker = self.checkers[(kind, kidx)]
+        if checker is None:
+            return
+        try:
+            if wire[:1] == b'\x05':
+                name, _p, _ap, sig = enc.parse_interest(wire)
+            else:
+                name, _mi, _c, sig = enc.parse_data(wire)
+            styp = sig.signature_info.signature_type if sig.signature_info is not None else None
+            if kind != 'digest' and (styp is None or _expected_type(kind) != styp):
+                verdict = False
+            elif kind == 'digest' and styp != enc.SignatureType.DIGEST_SHA256:
+                verdict = False
+            else:
+                verdict = bool(await checker(name, sig))
+        except Exception as e:
+            self.log('direct', fid=flow['id'], verdict=None, exc=exc_brief(e))
+            return
+        self.log('direct', fid=flow['id'], verdict=verdict,
+                 covered=b''.join(bytes(c) for c in (sig.signature_covered_part or [])))
 
     # ---- validators ---------------------------------------------------------------------------
     def _wrap_checker(self, flow, fe, role):
@@ -612,6 +688,13 @@ class SigWorld(World):
                     # strictness; the outcome equals stripping the signature, which that front-end permits by design
                     self.ambiguous += 1
                     continue
+                if is_int and orig is not None and flow['signer'] not in ('null', 'none') \
+                        and [c for c in recv.name if c[:1] != b'\x02'] != [c for c in orig.name if c[:1] != b'\x02'] \
+                        and recv.signed_portion == orig.signed_portion and recv.sig_value == orig.sig_value:
+                    self.violate('C02', 'forged-accepted', comp, 'name-changed',
+                                 f'flow {fid}: a signed Interest was accepted under another name than the one that was signed: the '
+                                 f'covered bytes are the same, the boundary between Name and parameters was moved in flight')
+                    continue
                 if is_int and recv.sig_info is not None and recv.app_param is None and orig is not None \
                         and orig.app_param is not None and flow['signer'] not in ('null', 'none'):
                     self.violate('C02', 'forged-accepted', comp, 'parameters-moved-into-name',
@@ -647,6 +730,27 @@ class SigWorld(World):
                     self.violate('C02', 'forged-accepted', comp, what.replace(' ', '-'),
                                  f'flow {fid}: a {flow["dir"]} whose {what} differs from the packet signed with '
                                  f'{flow["signer"]} was accepted (mutation {flow.get("mutation")})')
+        # (d') the verifier on its own (asked directly about the packet as received)
+        for e in ev:
+            if e['k'] != 'direct' or not e.get('verdict'):
+                continue
+            flow = self.flows.get(e['fid'])
+            if flow is None or flow.get('mutation') is None or flow.get('_recv') is None:
+                continue
+            is_int = flow['dir'] == 'interest'
+            recv = parse_any(flow['_recv'], is_int)
+            orig = parse_any(flow['_orig'], is_int)
+            if recv is None or orig is None or getattr(recv, 'signed_ambiguous', False):
+                continue
+            if is_int and not _canonical_order(recv):
+                continue
+            if recv.signed_portion is None or orig.signed_portion is None:
+                continue
+            if recv.signed_portion != orig.signed_portion or recv.sig_value != orig.sig_value:
+                what = 'signed-portion' if recv.signed_portion != orig.signed_portion else 'signature-value'
+                self.violate('C02', 'forged-accepted', f'{flow["signer"]}-{flow["dir"]}', 'verifier-alone-' + what,
+                             f'flow {e["fid"]}: the matching verifier, asked directly, accepted a {flow["dir"]} whose '
+                             f'{what} differs from the signed packet (mutation {flow.get("mutation")})')
         # (e) params-digest check == SHA-256 rule, evaluated on every Interest that crossed the link
         for e in ev:
             if e['k'] == 'link' and e['dir'] == 'c2p' and e['sent'] is not None:
@@ -705,6 +809,10 @@ def rand_mut(rng):
         return {'t': 'namedigest', 'pos': rng.randint(0, 6), 'hex': rng.choice(['', 'ab' * 32, 'cd' * 31]), 'copy': rng.random() < 0.3}
     if x < 0.75:
         return {'t': 'ap2name'}
+    if x < 0.78:
+        return {'t': 'digestlen', 'k': rng.choice([2, 3, 4, 8])}
+    if x < 0.81:
+        return {'t': 'name2ap', 'refix': True}
     edit = rng.choice(['dup', 'del', 'swap', 'ins', 'ins', 'retype', 'empty', 'extend', 'shorten'])
     m = {'t': 'tlv', 'edit': edit, 'path': rng.randint(0, 40)}
     if edit == 'extend':
@@ -740,11 +848,16 @@ def generate(rng, seed, tier='quick'):
             clen = rng.choice([65530, 65536, 70000])
         f = {'id': i + 1, 'dir': d, 'signer': signer, 'key': rng.randint(0, 2),
              'name': ['s', f'f{i}'] + [rng.choice(['a', 'b', 'c', 'seg=0', 'seg=256', 'v=1', 't=1700000000000', '%00', '%C3%A9', '32=x',
-                                                    '65535=zz', '8=', 'KEY', 'x%2Fy']) for _ in range(rng.randint(0, 5))],
+                                                    '65535=zz', '8=', 'KEY', 'x%2Fy']) for _ in range(rng.randint(0, 5))]
+             + (['36=ab'] if d == 'interest' and rng.random() < 0.12 else []),
              'content_len': clen, 'app_param_len': rng.choice([0, 0, 1, 10, 252, 253, 300]) if d == 'interest' else 0,
              'mut_dir': 'p2c' if d == 'data' else 'c2p', 'lifetime': 20, 'delay_us': rng.choice([1, 10, 1000]),
              'mutation': rand_mut(rng) if rng.random() < 0.75 else None,
+             '_fixup': None,
              'verifier': 'match' if rng.random() < 0.9 else 'wrongkey'}
+        f.pop('_fixup')
+        if f['name'][-1] == '36=ab' and rng.random() < 0.6:
+            f['mutation'] = {'t': 'name2ap', 'refix': True}
         if rng.random() < 0.2:
             f['fresh'] = rng.choice([0, 1000, 2 ** 32])
         if d == 'data':
